@@ -300,7 +300,14 @@ func materialiseTree(nodes []treeNode) (string, error) {
 		case 'l':
 			err = os.Symlink(filepath.Join(outer, "tfile"), p)
 		case 'L':
-			err = os.Symlink(filepath.Join(root, n.target), p)
+			if filepath.Dir(n.path) == filepath.Dir(n.target) {
+				// a link to a sibling is created with a RELATIVE target ("latest -> v003"), as
+				// such links are made in practice; two of them in different directories then
+				// have the same link text
+				err = os.Symlink(filepath.Base(n.target), p)
+			} else {
+				err = os.Symlink(filepath.Join(root, n.target), p)
+			}
 		}
 		if err != nil {
 			return root, err
@@ -444,10 +451,54 @@ func genSeqlsWide(r *Rand) string {
 	return fmt.Sprintf("seqls %s %s %s", flags, strings.Join(roots, ","), strings.Join(nodes, ","))
 }
 
+// genSeqlsShots: 2-4 shot directories, each with version directories (that have sub-directories
+// with files) and a relative link "latest" (or "cur") to one of its own versions: one link per
+// target, no aliasing, but the same link text in every shot
+func genSeqlsShots(r *Rand) string {
+	var nodes []string
+	ns := r.Range(2, 4)
+	lname := r.Pick([]string{"latest", "cur", ".cur"})
+	vname := r.Pick([]string{"v003", "v1", "take"})
+	for s := 0; s < ns; s++ {
+		shot := fmt.Sprintf("sh%02d", s)
+		nodes = append(nodes, hx(shot)+":d")
+		for _, v := range []string{vname, "old"} {
+			vd := shot + "/" + v
+			nodes = append(nodes, hx(vd)+":d")
+			for _, sub := range []string{"beauty", "depth"} {
+				sd := vd + "/" + sub
+				nodes = append(nodes, hx(sd)+":d")
+				nf := r.Range(1, 3)
+				for j := 0; j < nf; j++ {
+					nodes = append(nodes, hx(fmt.Sprintf("%s/%s_%s.%04d.exr", sd, sub, "x", j+1))+":f")
+				}
+			}
+			nodes = append(nodes, hx(vd+"/notes.txt")+":f")
+		}
+		nodes = append(nodes, hx(shot+"/"+lname)+":L:"+hx(shot+"/"+vname))
+	}
+	flags := "r"
+	for _, c := range "as1f" {
+		if r.Chance(1, 2) {
+			flags += string(c)
+		}
+	}
+	root := r.Pick([]string{".", "/T", "sh00,sh01"})
+	var roots []string
+	for _, x := range strings.Split(root, ",") {
+		roots = append(roots, hx(x))
+	}
+	return fmt.Sprintf("seqls %s %s %s", flags, strings.Join(roots, ","), strings.Join(nodes, ","))
+}
+
 func genSeqls(r *Rand, n int, thorough bool, emit func(string)) {
 	for i := 0; i < n; i++ {
 		if i%10 == 9 {
 			emit(genSeqlsWide(r))
+			continue
+		}
+		if i%10 == 4 {
+			emit(genSeqlsShots(r))
 			continue
 		}
 		var nodes []string
